@@ -202,6 +202,32 @@ def gen(rng, n, tier="quick"):
             ops.append(op)
         return ips, ops
 
+    def pair_shape(ips, ops, itree, otree):
+        """several pairs that meet (edits ips / ops in place, returns the tag): the same output address twice; an input
+        address that is also a LATER pair's output address (the node the earlier pair moved into the output tree carries
+        that location); two pairs swapped (a -> b together with b -> a)"""
+        if len(ips) < 2 or len(ips) != len(ops):
+            return None
+        oset = set(_leaf_locs(otree))
+        common = [q for q in _leaf_locs(itree) if q in oset]
+        shape = rng.choice(["same-output-twice", "moved-node-hit-first", "swap"])
+        if not common:
+            shape = "same-output-twice"
+        if shape == "same-output-twice":
+            ops[-1] = ops[0]
+        elif shape == "moved-node-hit-first":
+            c = rng.choice(common)
+            ips[0], ops[-1] = c, c
+            if rng.random() < 0.5:
+                ips[-1] = c
+        else:
+            c1 = rng.choice(common)
+            others = [q for q in common if q != c1]
+            c2 = rng.choice([q for q in others if q.rsplit(".", 1)[0] == c1.rsplit(".", 1)[0]] or others or [c1])
+            ips[0], ips[-1] = c2, c1
+            ops[0], ops[-1] = c1, c2
+        return shape
+
     while len(cases) < n:
         r = rng.random()
         if r < 0.05:
@@ -234,6 +260,17 @@ def gen(rng, n, tier="quick"):
             if ostmts and rng.random() < 0.5:
                 ops = [rng.choice(ostmts) for _ in range(k)]
             wrap = rng.choice(WRAPS[:3]) if rng.random() < 0.4 else None
+            if rng.random() < 0.2:
+                # eval mode within ONE file: the evaluated names and the addressed locations live in the same module
+                k = rng.choice([1, 2, 2, 3])
+                src = rng.choice(EVAL_INPUTS[:2] + EVAL_INPUTS[4:]) + osrc
+                own = [t.id for n in ast.parse(src).body if isinstance(n, ast.Assign) for t in n.targets
+                       if isinstance(t, ast.Name)]
+                pool = (_leaf_locs(ast.parse(src), kind="stmt") if rng.random() < 0.7 else None) or _leaf_locs(ast.parse(src))
+                ips, ops = [rng.choice(own) for _ in range(k)], [rng.choice(pool) for _ in range(k)]
+                add("sync_properties", [True, src, ips, src, ops, wrap, True], "eval", "pairs-%d" % k,
+                    "wrap" if wrap else "nowrap", "same-file")
+                continue
             add("sync_properties", [True, isrc, ips, osrc, ops, wrap], "eval", "pairs-%d" % k,
                 "wrap" if wrap else "nowrap")
         elif r < 0.36:
@@ -242,21 +279,29 @@ def gen(rng, n, tier="quick"):
             tree = ast.parse(src)
             k = rng.choice([1, 1, 1, 2])
             ips, ops = choose_pairs(tree, tree, k)
+            shape = pair_shape(ips, ops, tree, tree) if k >= 2 and rng.random() < 0.3 else None
             wrap = rng.choice(WRAPS[:3]) if rng.random() < 0.6 else None
             add("sync_properties", [False, src, ips, src, ops, wrap, True], "noeval", "pairs-%d" % k,
-                "wrap" if wrap else "nowrap", "same-file")
+                "wrap" if wrap else "nowrap", "same-file", *([shape] if shape else []))
         else:
             isrc, osrc = module(SP_INPUTS), module(SP_OUTPUTS)
             itree, otree = ast.parse(isrc), ast.parse(osrc)
             k = rng.choice([1, 1, 2, 2, 3])
             ips, ops = choose_pairs(itree, otree, k)
+            shape = None
+            if k >= 2 and rng.random() < 0.15:
+                if rng.random() < 0.5:
+                    # two files with the same definitions (every location exists on both sides)
+                    osrc, otree = isrc, ast.parse(isrc)
+                    ips, ops = choose_pairs(itree, otree, k)
+                shape = pair_shape(ips, ops, itree, otree)
             if rng.random() < 0.03:
                 ops = ops[:-1]
             wrap = None
             if rng.random() < 0.45:
                 wrap = rng.choice(WRAPS[:3]) if rng.random() < 0.8 else rng.choice(WRAPS)
             add("sync_properties", [False, isrc, ips, osrc, ops, wrap], "noeval", "pairs-%d" % k,
-                "wrap" if wrap else "nowrap")
+                "wrap" if wrap else "nowrap", *([shape] if shape else []))
     return cases[:n]
 
 
